@@ -11,6 +11,9 @@ Strings travel as `x<hex of the bytes>` (so `x` is the empty string).  Ops:
 * `dbreset`
 * `prof <xpid> <deleted> <xdev>*`
 * `dev <xid> <enabled> <dohonly> (allow | deny | pw <xs>)`
+* `mdev <xid> <b|c> (- | <dohonly> none | <dohonly> pw <xs>)`   a device by its backend message (`-`: no
+  `authentication` field; `none`: no password hash) and where the database has it from (`b` backend, `c` cache
+  file written from the backend's data): the settings are computed by the model of the converters
 * `byid <xid> <res>` · `byhuman <xpid> <xlowerhuman> <res>` · `create <xpid> <xhuman> <dt> <res>` ·
   `bylinked <ip> <res>` · `byded <ip> <res>`  with `<res>` = `ok <xpid> <xdid>` | `dnf…` | `pnf…` | `err`
 * `req <userinfo> <xpath> <xsni> <edns> <lip> <lport> <rip>` with `<userinfo>` = `-` | `u:<xs>` |
@@ -150,6 +153,13 @@ def step (s : S) : List String → S × String
       | ["pw", p] => fun x => x = unx p
       | _ => fun _ => false
     ({ s with devs := { id := unx id, auth := { enabled := bool! enabled, dohOnly := bool! dohonly, check } } :: s.devs }, "ok")
+  | "mdev" :: id :: src :: rest =>
+    let m : Option MsgAuth := match rest with
+      | [d, "none"] => some { dohOnly := bool! d, hash := none }
+      | [d, "pw", p] => some { dohOnly := bool! d, hash := some (fun x => x = unx p) }
+      | _ => none
+    let source : Source := if src == "c" then .cacheFile else .backend
+    ({ s with devs := { id := unx id, auth := authFrom source m } :: s.devs }, "ok")
   | "byid" :: id :: res => ({ s with byid := (unx id, parseRes res) :: s.byid }, "ok")
   | "byhuman" :: pid :: h :: res => ({ s with byhuman := (unx pid, unx h, parseRes res) :: s.byhuman }, "ok")
   | "create" :: pid :: h :: dt :: res =>
